@@ -21,6 +21,10 @@ identities among themselves; callers state which case they are in.
 from fractions import Fraction
 
 MAX_TERMS = 400000
+# jet variables: symbols NAME, NAME_x, NAME_xy ... standing for an unspecified smooth field and its partial
+# derivatives; d/dx NAME_s = NAME_{sorted(s+x)}.  Set by callers around a computation (see sa/checks/c03.py).
+JETS = set()
+JET_COORDS = ()
 
 
 class TooBig(Exception):
@@ -214,14 +218,18 @@ def clear_inverses(p):
     raise TooBig('nested reciprocals')
 
 
-def is_zero(p):
-    """decides p == 0 for polynomials in independent atoms"""
+def witness(p):
+    """canonical numerator of p: empty iff p == 0 (polynomials in independent atoms)"""
     p = reduce_trig(p)
     if not p:
-        return True
+        return p
     p = clear_inverses(p)
-    p = reduce_trig(p)
-    return not p
+    return reduce_trig(p)
+
+
+def is_zero(p):
+    """decides p == 0 for polynomials in independent atoms"""
+    return not witness(p)
 
 
 def equal(p, q):
@@ -262,6 +270,13 @@ def from_term(t, env=None):
                 return const(1)
             if len(e) == 1 and () in e and e[()].denominator == 1:
                 return ipow(from_term(args[0], env), int(e[()]))
+            if len(e) > 1 and () in e and e[()].denominator == 1:
+                # pow(b, s + k) = pow(b, s) * b^k  (k integer literal)
+                k_ = int(e[()])
+                rest = dict(e)
+                del rest[()]
+                b = from_term(args[0], env)
+                return mul(atom(('fn', 'pow', (canon(reduce_trig(b)), canon(rest)))), ipow(b, k_))
             if len(e) == 1 and () in e and e[()].denominator == 2:
                 # half-integer power: sqrt(base)^(2k+1)
                 b = from_term(args[0], env)
@@ -303,9 +318,22 @@ def depends(p, x):
     return False
 
 
+def jet_base(name):
+    if name in JETS:
+        return name, ''
+    i = name.rfind('_')
+    if i > 0 and name[:i] in JETS and name[i + 1:] and all(c in JET_COORDS for c in name[i + 1:]):
+        return name[:i], name[i + 1:]
+    return None, None
+
+
 def atom_depends(a, x):
     if a[0] == 'sym':
-        return a[1] == x
+        if a[1] == x:
+            return True
+        if JETS and x in JET_COORDS and jet_base(a[1])[0] is not None:
+            return True
+        return False
     if a[0] in ('sin', 'cos', 'inv'):
         return depends(uncanon(a[1]), x)
     if a[0] == 'fn':
@@ -317,7 +345,13 @@ def atom_depends(a, x):
 
 def d_atom(a, x, fn_rules=None):
     if a[0] == 'sym':
-        return const(1) if a[1] == x else {}
+        if a[1] == x:
+            return const(1)
+        if JETS and x in JET_COORDS:
+            b, suf = jet_base(a[1])
+            if b is not None:
+                return sym(b + '_' + ''.join(sorted(suf + x)))
+        return {}
     if not atom_depends(a, x):
         return {}
     if a[0] == 'sin':
